@@ -232,6 +232,16 @@ pub fn take_panic() -> String {
     LAST_PANIC.with(|p| std::mem::take(&mut *p.borrow_mut()))
 }
 
+/// The VM hook (step counter, budget, armed fault) belongs to `interpret_outcome`. Anything else
+/// that makes numbat execute code on this thread (REPL commands such as `help`, which evaluates
+/// its examples; `info`, which evaluates the identifier on a copy) must find the hook idle, or
+/// the steps of the previous input would count against it.
+pub fn hook_idle() {
+    numbat::verif::reset();
+    numbat::verif::disarm();
+    numbat::verif::set_budget(None);
+}
+
 /// Run `f`, trapping panics.
 pub fn trap<T>(f: impl FnOnce() -> T) -> Result<T, String> {
     match catch_unwind(AssertUnwindSafe(f)) {
